@@ -93,6 +93,12 @@ class G:
         k = d(st.integers(0, 9)) if depth < 3 else 0
         if k <= 3 and self.fvar and d(st.integers(0, 4)) == 0:
             return ["setf", d(st.sampled_from("+-r")), d(st.integers(-6, 6))]
+        if k <= 3 and self.lists and d(st.integers(0, 5)) == 0:
+            # the container is reached through a local name taken just before the block (cnt = _.cnt hoisted out of the block, a
+            # row of the nested list): the writes inside the block change the very object the context holds, in place
+            writes = [["setl", d(st.integers(0, 2)), self.expr()] if d(st.booleans()) else ["setm", 0, d(st.integers(0, 1)), self.expr()]
+                      for _ in range(d(st.integers(1, 2)))]
+            return ["alias_if", self.cond(), writes]
         if k <= 3:
             if self.lists and d(st.integers(0, 2)) == 0:
                 if d(st.booleans()):
@@ -287,6 +293,14 @@ def _render(case, obl):
             emit(ind, "_.f = " + {"+": "_.f + (%s)", "-": "_.f - (%s)", "r": "(%s) - _.f"}[s[1]] % c)
         elif t == "set":
             emit(ind, "_.x%d = %s" % (s[1], r_expr(s[2], obl)))
+        elif t == "alias_if":
+            emit(ind, "tl = _.l")
+            emit(ind, "tm0 = _.m[0]")
+            emit(ind, ("if _if(%s%s):" % (r_cond(s[1], obl), CX2)) if obl else "if %s:" % r_cond(s[1], obl))
+            for w in s[2]:
+                emit(ind + 1, ("tl[%d] = %s" % (w[1], r_expr(w[2], obl))) if w[0] == "setl" else "tm0[%d] = %s" % (w[2], r_expr(w[3], obl)))
+            if obl:
+                emit(ind, "_endif(%s)" % CX1)
         elif t == "setl":
             emit(ind, "_.l[%d] = %s" % (s[1], r_expr(s[2], obl)))
         elif t == "setm":
@@ -612,9 +626,9 @@ def shard(seed, n_examples):
 
     v = core.drive(test, seed, n_examples)
     if v is not None:
-        v.case["oblivious_source"] = render(v.case, True).split("\n")
-        
-        v.case["native_source"] = render(v.case, False).split("\n")
+        if "body" in v.case:          # (an exception raised inside the library arrives without a program)
+            v.case["oblivious_source"] = render(v.case, True).split("\n")
+            v.case["native_source"] = render(v.case, False).split("\n")
         stats.violations.append({"case": v.case, "msg": v.msg, "key": v.key})
     return stats
 
